@@ -184,6 +184,14 @@ class Ledger(object):
             'distinct_nontrivial': len(set(o[0] for o in self.obls)),
             'rule': rule or 'one obligation per (function under contract, clause, case); distinct by obligation name',
         }
+        try:
+            from . import pysym as _ps
+            never = {q: sorted(k for k, v in d.items() if not v) for q, d in _ps.PARAM_COVER.items()}
+            never = {q: v for q, v in never.items() if v and not q.startswith('compmech.logger')}
+            if never:
+                cov['optional_parameters_only_seen_at_their_default'] = never
+        except Exception:
+            pass
         cov.update(self.extra)
         ev = {'property_id': self.pid, 'tier': self.tier, 'seed': self.seed, 'level': self.level,
               'coverage': cov, 'assumptions': self.assumptions, 'wall_s': round(wall, 3),
